@@ -513,3 +513,190 @@ Lemma gen_f32_is_spec : forall v, mathops_ext (gen_f32_math v) float_math.
 Proof. intros []; unfold mathops_ext; repeat split; intros; reflexivity. Qed.
 Lemma gen_f64_is_spec : forall v, mathops_ext (gen_f64_math v) float_math.
 Proof. intros []; unfold mathops_ext; repeat split; intros; reflexivity. Qed.
+
+(** * 5. Statements about the generated records *)
+
+(* the float layers the translator produced: both variants at binary32 and binary64 *)
+Inductive gen_float_layer :
+  forall (prec emax : Z) (Hp : FLX.Prec_gt_0 prec) (He : Prec_lt_emax prec emax),
+    MathOps (binary_float prec emax) -> Prop :=
+| GF32 : forall v, gen_float_layer 24 128 prec32 emax32 (gen_f32_math v)
+| GF64 : forall v, gen_float_layer 53 1024 prec64 emax64 (gen_f64_math v).
+
+Lemma gen_float_is_spec : forall prec emax Hp He M,
+  gen_float_layer prec emax Hp He M -> mathops_ext M (@float_math prec emax Hp He).
+Proof. intros prec emax Hp He M []; [apply gen_f32_is_spec | apply gen_f64_is_spec]. Qed.
+
+Ltac use_ext E :=
+  destruct E as (Ezero & Eone & Emax & Emin & Esqrt & Eabs & Eeq & Ecmin & Ecmax & Eadd & Esub & Emul & Ediv);
+  rewrite ?Ezero, ?Eone, ?Emax, ?Emin, ?Esqrt, ?Eabs, ?Eeq, ?Ecmin, ?Ecmax, ?Eadd, ?Esub, ?Emul, ?Ediv;
+  cbn [int_math float_math m_zero m_one m_max m_min m_sqrt m_abs m_cmp_eq m_cmp_min m_cmp_max m_add m_sub m_mul m_div].
+
+Lemma width_pos : forall t, 0 < width t.
+Proof. intros []; reflexivity. Qed.
+
+Section IntLayer.
+  Variables (v : math_variant) (t : ty) (M : MathOps Z).
+  Hypothesis HM : gen_int_math v t = Some M.
+  Let sg := is_signed t.
+  Let w := width t.
+
+  Lemma int_identities : forall x, in_range w x ->
+    m_add M (m_zero M) x = x /\ m_add M x (m_zero M) = x /\ m_mul M (m_one M) x = x /\ m_mul M x (m_one M) = x.
+  Proof.
+    intros x Hx. pose proof (gen_int_is_spec v t M HM) as E. use_ext E.
+    repeat split; [apply i_add_0_l | apply i_add_0_r | apply i_mul_1_l | apply i_mul_1_r]; exact Hx.
+  Qed.
+
+  Lemma int_bounds :
+    in_range w (m_min M) /\ in_range w (m_max M) /\
+    ival sg w (m_min M) = int_lo sg w /\ ival sg w (m_max M) = int_hi sg w /\
+    forall x, in_range w x -> ival sg w (m_min M) <= ival sg w x <= ival sg w (m_max M).
+  Proof.
+    pose proof (gen_int_is_spec v t M HM) as E. use_ext E. pose proof (width_pos t) as Hw.
+    split; [apply i_MIN_val; exact Hw|]. split; [apply i_MAX_val; exact Hw|].
+    split; [apply i_MIN_val; exact Hw|]. split; [apply i_MAX_val; exact Hw|].
+    intros x Hx. apply i_bounds; assumption.
+  Qed.
+
+  Lemma int_arith : forall a b, in_range w a -> in_range w b ->
+    (in_range w (m_add M a b) /\ ival sg w (m_add M a b) mod 2 ^ w = (ival sg w a + ival sg w b) mod 2 ^ w) /\
+    (in_range w (m_sub M a b) /\ ival sg w (m_sub M a b) mod 2 ^ w = (ival sg w a - ival sg w b) mod 2 ^ w) /\
+    (in_range w (m_mul M a b) /\ ival sg w (m_mul M a b) mod 2 ^ w = (ival sg w a * ival sg w b) mod 2 ^ w) /\
+    match m_div M a b with
+    | None => b = 0
+    | Some q => b <> 0 /\ in_range w q /\ q = wrap w (Z.quot (ival sg w a) (ival sg w b)) /\
+                (~ (ival sg w a = int_lo sg w /\ ival sg w b = -1) -> ival sg w q = Z.quot (ival sg w a) (ival sg w b))
+    end.
+  Proof.
+    intros a b Ha Hb. pose proof (gen_int_is_spec v t M HM) as E. use_ext E. pose proof (width_pos t) as Hw.
+    split; [apply i_add_spec; exact Hw|]. split; [apply i_sub_spec; exact Hw|]. split; [apply i_mul_spec; exact Hw|].
+    pose proof (i_div_spec sg w a b Hw Ha Hb) as D.
+    fold sg w. destruct (i_div sg w a b) as [q|] eqn:Dq; [|exact D].
+    destruct D as (D1 & D2 & D3). split; [exact D1|]. split; [exact D2|]. split; [exact D3|]. intros N.
+    apply (i_div_exact sg w a b q Hw Ha Hb Dq N).
+  Qed.
+
+  (* whenever the exact result fits the type it is the result *)
+  Lemma int_arith_exact : forall a b, in_range w a -> in_range w b ->
+    (int_lo sg w <= ival sg w a + ival sg w b <= int_hi sg w -> ival sg w (m_add M a b) = ival sg w a + ival sg w b) /\
+    (int_lo sg w <= ival sg w a - ival sg w b <= int_hi sg w -> ival sg w (m_sub M a b) = ival sg w a - ival sg w b) /\
+    (int_lo sg w <= ival sg w a * ival sg w b <= int_hi sg w -> ival sg w (m_mul M a b) = ival sg w a * ival sg w b).
+  Proof.
+    intros a b Ha Hb. destruct (int_arith a b Ha Hb) as ((A1 & A2) & (S1 & S2) & (M1 & M2) & _).
+    pose proof (width_pos t) as Hw.
+    repeat split; intros F; apply ival_of_fit; assumption.
+  Qed.
+
+  Lemma int_minmax : forall a b,
+    ((m_cmp_min M a b = a \/ m_cmp_min M a b = b) /\ ival sg w (m_cmp_min M a b) = Z.min (ival sg w a) (ival sg w b)) /\
+    ((m_cmp_max M a b = a \/ m_cmp_max M a b = b) /\ ival sg w (m_cmp_max M a b) = Z.max (ival sg w a) (ival sg w b)).
+  Proof.
+    intros a b. pose proof (gen_int_is_spec v t M HM) as E. use_ext E.
+    split; [apply i_min_spec | apply i_max_spec].
+  Qed.
+
+  Lemma int_eq : forall a b, in_range w a -> in_range w b ->
+    (m_cmp_eq M a b = true <-> a = b) /\ (m_cmp_eq M a b = true <-> ival sg w a = ival sg w b).
+  Proof.
+    intros a b Ha Hb. pose proof (gen_int_is_spec v t M HM) as E. use_ext E.
+    apply i_eq_spec; [apply width_pos | assumption | assumption].
+  Qed.
+
+  Lemma int_abs : forall a, in_range w a ->
+    in_range w (m_abs M a) /\
+    (ival sg w a <> int_lo sg w \/ sg = false -> ival sg w (m_abs M a) = Z.abs (ival sg w a)).
+  Proof.
+    intros a Ha. pose proof (gen_int_is_spec v t M HM) as E. use_ext E.
+    apply i_abs_spec; [apply width_pos | assumption].
+  Qed.
+
+  Lemma int_isqrt : forall a, 0 <= a < 2 ^ 52 -> a <= int_hi sg w -> m_sqrt M a = Z.sqrt a.
+  Proof.
+    intros a Ha Hh. pose proof (gen_int_is_spec v t M HM) as E. use_ext E.
+    apply i_sqrt_floor; [apply width_pos | assumption | assumption].
+  Qed.
+End IntLayer.
+
+Section FloatLayer.
+  Variables (prec emax : Z) (Hp : FLX.Prec_gt_0 prec) (He : Prec_lt_emax prec emax).
+  Variable M : MathOps (binary_float prec emax).
+  Hypothesis HM : gen_float_layer prec emax Hp He M.
+  Notation bf := (binary_float prec emax).
+  Notation RN := (round radix2 (SpecFloat.fexp prec emax) (round_mode mode_NE)).
+
+  Lemma float_ops_are_ieee :
+    m_zero M = B754_zero false /\ m_one M = Bone /\ m_max M = B754_infinity false /\ m_min M = B754_infinity true /\
+    (forall a, m_sqrt M a = Bsqrt mode_NE a) /\ (forall a, m_abs M a = Babs a) /\
+    (forall a b, m_cmp_eq M a b = Beqb a b) /\
+    (forall a b, m_add M a b = Bplus mode_NE a b) /\ (forall a b, m_sub M a b = Bminus mode_NE a b) /\
+    (forall a b, m_mul M a b = Bmult mode_NE a b) /\ (forall a b, m_div M a b = Some (Bdiv mode_NE a b)).
+  Proof.
+    pose proof (gen_float_is_spec _ _ _ _ M HM) as E.
+    destruct E as (Ezero & Eone & Emax & Emin & Esqrt & Eabs & Eeq & Ecmin & Ecmax & Eadd & Esub & Emul & Ediv).
+    split; [exact Ezero|]. split; [exact Eone|]. split; [exact Emax|]. split; [exact Emin|].
+    split; [exact Esqrt|]. split; [exact Eabs|]. split; [exact Eeq|]. split; [exact Eadd|].
+    split; [exact Esub|]. split; [exact Emul|]. exact Ediv.
+  Qed.
+
+  Lemma float_identities : forall x : bf, f_is_nan x = false ->
+    f_eq (m_add M (m_zero M) x) x = true /\ f_eq (m_add M x (m_zero M)) x = true /\
+    (x <> B754_zero true -> m_add M (m_zero M) x = x /\ m_add M x (m_zero M) = x) /\
+    m_mul M (m_one M) x = x /\ m_mul M x (m_one M) = x.
+  Proof.
+    intros x Hx. pose proof (gen_float_is_spec _ _ _ _ M HM) as E. use_ext E.
+    destruct (f_add_zero x Hx) as (A1 & A2 & A3). destruct (f_mul_one x Hx) as (M1 & M2).
+    repeat split; try assumption; apply A3; assumption.
+  Qed.
+
+  Lemma float_bounds : forall x : bf, f_is_nan x = false ->
+    f_ordered_le (m_min M) x /\ f_ordered_le x (m_max M).
+  Proof.
+    intros x Hx. pose proof (gen_float_is_spec _ _ _ _ M HM) as E. use_ext E. apply f_bounds; assumption.
+  Qed.
+
+  Lemma float_minmax : forall a b : bf, f_is_nan a = false -> f_is_nan b = false ->
+    ((m_cmp_min M a b = a \/ m_cmp_min M a b = b) /\
+     f_ordered_le (m_cmp_min M a b) a /\ f_ordered_le (m_cmp_min M a b) b) /\
+    ((m_cmp_max M a b = a \/ m_cmp_max M a b = b) /\
+     f_ordered_le a (m_cmp_max M a b) /\ f_ordered_le b (m_cmp_max M a b)).
+  Proof.
+    intros a b Ha Hb. pose proof (gen_float_is_spec _ _ _ _ M HM) as E. use_ext E.
+    split; [apply f_min_spec | apply f_max_spec]; assumption.
+  Qed.
+
+  Lemma float_eq : forall a b : bf,
+    (m_cmp_eq M a b = true <-> Bcompare a b = Some Eq) /\
+    (f_is_nan a = true \/ f_is_nan b = true -> m_cmp_eq M a b = false) /\
+    (is_finite a = true -> is_finite b = true -> (m_cmp_eq M a b = true <-> B2R a = B2R b)) /\
+    (forall s1 s2, m_cmp_eq M (B754_zero s1) (B754_zero s2) = true).
+  Proof.
+    intros a b. pose proof (gen_float_is_spec _ _ _ _ M HM) as E. use_ext E.
+    destruct (f_eq_spec a b) as (E1 & E2 & E3). repeat split; try apply E1; try apply E3; auto.
+    intros s1 s2. rewrite Eeq. apply f_eq_zeros.
+  Qed.
+
+  Lemma float_arith_rounded : forall x y : bf, is_finite x = true -> is_finite y = true ->
+    ((Rabs (RN (B2R x + B2R y)) < bpow radix2 emax)%R ->
+       B2R (m_add M x y) = RN (B2R x + B2R y) /\ is_finite (m_add M x y) = true) /\
+    ((Rabs (RN (B2R x - B2R y)) < bpow radix2 emax)%R ->
+       B2R (m_sub M x y) = RN (B2R x - B2R y) /\ is_finite (m_sub M x y) = true) /\
+    ((Rabs (RN (B2R x * B2R y)) < bpow radix2 emax)%R ->
+       B2R (m_mul M x y) = RN (B2R x * B2R y) /\ is_finite (m_mul M x y) = true) /\
+    (B2R y <> 0%R -> (Rabs (RN (B2R x / B2R y)) < bpow radix2 emax)%R ->
+       exists q, m_div M x y = Some q /\ B2R q = RN (B2R x / B2R y) /\ is_finite q = true).
+  Proof.
+    intros x y Fx Fy. pose proof (gen_float_is_spec _ _ _ _ M HM) as E. use_ext E.
+    split; [apply f_add_correct; assumption|]. split; [apply f_sub_correct; assumption|].
+    split; [apply f_mul_correct; assumption|].
+    intros Hy Hov. exists (f_div x y). split; [reflexivity|]. apply f_div_correct; assumption.
+  Qed.
+
+  Lemma float_sqrt : forall x : bf,
+    m_sqrt M x = Bsqrt mode_NE x /\ B2R (m_sqrt M x) = RN (sqrt (B2R x)) /\
+    (is_finite x = true -> Bsign x = false -> is_finite (m_sqrt M x) = true).
+  Proof.
+    intros x. pose proof (gen_float_is_spec _ _ _ _ M HM) as E. use_ext E.
+    split; [reflexivity|]. apply f_sqrt_correct.
+  Qed.
+End FloatLayer.
